@@ -552,7 +552,7 @@ func TestVerif_C20_RoundTrip(t *testing.T) {
 		}
 		tgt := c20NewTarget(t, "")
 		defer tgt.close()
-		err, timedOut, pan := tgt.restore(c20Tar(src.files), 30*time.Second)
+		err, timedOut, pan := tgt.restore(c20Tar(src.files), 120*time.Second)
 		if pan != nil {
 			fail("restore-panic", fmt.Sprint(pan))
 		}
@@ -718,7 +718,7 @@ func TestVerif_C20_Mutants(t *testing.T) {
 			}
 			// a rejected archive leaves the node as it was: the genuine export still restores into it afterwards
 			if rejected && err != nil && withAccount == "" && mustReject && kind != "key-dropped" && kind != "proof-key-dropped" {
-				err2, timedOut2, pan2 := tgt.restore(c20Tar(src.files), 30*time.Second)
+				err2, timedOut2, pan2 := tgt.restore(c20Tar(src.files), 120*time.Second)
 				if pan2 != nil {
 					fail("restore-panic/after-rejected-"+kind, fmt.Sprint(pan2))
 				}
